@@ -13,6 +13,7 @@ open Pb.Crop Pb.Gen.Classes
 /-- how a Quantity-valued argument looks to its setter -/
 inductive QKind
   | pos | zero | neg            -- scalar, frequency unit, by sign
+  | nan                         -- scalar, frequency unit, not-a-number (`nan > 0` is false: not positive)
   | nonScalar | wrongUnit | notQuantity
   deriving DecidableEq, Repr
 
@@ -103,7 +104,7 @@ structure Sig where
   deriving Repr
 
 def qPos (k : QKind) : Bool := k == .pos
-def qScalarFreq (k : QKind) : Bool := k == .pos || k == .zero || k == .neg
+def qScalarFreq (k : QKind) : Bool := k == .pos || k == .zero || k == .neg || k == .nan
 
 /-- `Signal.__init__` … `DualPolarizationSignal.__init__`, in the order the checks run -/
 def construct? (d : ClassDesc) (a : Args) : Option Sig :=
